@@ -325,7 +325,126 @@ Fixpoint ctrace (s : cst) (ops : list cop) : list (tout * cst) :=
   | o :: r => let '(s', x) := cstep s o in (x, s') :: ctrace s' r
   end.
 
+(* ---------- the build server in front of the cache ---------- *)
+
+(* src/bin/sccache-dist/main.rs `Server` (handle_assign_job / handle_submit_toolchain /
+   handle_run_job) with the real builder's treatment of a toolchain it cannot unpack
+   (build.rs prepare_overlay_dirs: get the archive, and when unpacking fails remove it from the
+   cache again).  The cache sits in a Mutex that handle_submit_toolchain holds while the body of
+   an upload arrives: [supl] is an upload that has stalled in the middle of its body, and an
+   assignment arriving meanwhile WAITS for it ([swait]) and is answered from the cache after the
+   upload has been dealt with.  need_toolchain is never answered from anything but the cache.
+   Archives in this model are not unpackable (the generator only uploads such); [sdirs] are the
+   toolchain directories a failed "not available" attempt leaves behind (create_dir then fails). *)
+Record sst := {
+  sv : tst;
+  sjobs : list (N * id);           (* job_toolchains *)
+  snjob : N;                       (* job ids handed out by the scheduler *)
+  supl : option (N * bytes);       (* the stalled upload: job, body *)
+  swait : list (N * id);           (* assignments waiting for the cache lock *)
+  sdirs : list id
+}.
+
+Inductive sop :=
+| SAssign (i : id)
+| SSubmit (j : N) (b : bytes)
+| SStall (j : N) (b : bytes)
+| SRelease
+| SRun (j : N).
+
+Inductive sres :=
+| SNeed | SReady | SErr | SBlocked | SBusy | SSuccess | SCannotCache | SJobNotFound | SStalled | SIdle | SFailed.
+
+Definition answer (v : tst) (i : id) : sres := if tc_contains v i then SReady else SNeed.
+
+(* handle_submit_toolchain once it holds the cache lock *)
+Definition submit_now (v : tst) (jobs : list (N * id)) (j : N) (b : bytes) : tst * sres :=
+  match hlookup j jobs with
+  | None => (v, SJobNotFound)
+  | Some i =>
+      if tc_contains v i then (v, SSuccess)
+      else let '(v', r, _) := tc_insert_with v i b false in
+           (v', match r with TOk => SSuccess | _ => SCannotCache end)
+  end.
+
+Fixpoint mem_id (i : id) (l : list id) : bool :=
+  match l with [] => false | x :: r => bytes_eqb i x || mem_id i r end.
+
+Definition sstep (s : sst) (o : sop) : sst * sres * list sres :=
+  match o with
+  | SAssign i =>
+      let j := snjob s + 1 in
+      if negb (valid_id i) then
+        ({| sv := sv s; sjobs := sjobs s; snjob := j; supl := supl s; swait := swait s; sdirs := sdirs s |}, SErr, [])
+      else match supl s with
+           | Some _ =>
+               ({| sv := sv s; sjobs := sjobs s; snjob := j; supl := supl s;
+                   swait := swait s ++ [(j, i)]; sdirs := sdirs s |}, SBlocked, [])
+           | None =>
+               ({| sv := sv s; sjobs := sjobs s ++ [(j, i)]; snjob := j; supl := None;
+                   swait := swait s; sdirs := sdirs s |}, answer (sv s) i, [])
+           end
+  | SSubmit j b =>
+      match supl s with
+      | Some _ => (s, SBusy, [])
+      | None => let '(v', r) := submit_now (sv s) (sjobs s) j b in
+                ({| sv := v'; sjobs := sjobs s; snjob := snjob s; supl := None; swait := swait s; sdirs := sdirs s |}, r, [])
+      end
+  | SStall j b =>
+      match supl s with
+      | Some _ => (s, SBusy, [])
+      | None =>
+          match hlookup j (sjobs s) with
+          | None => (s, SJobNotFound, [])
+          | Some i =>
+              if tc_contains (sv s) i then (s, SSuccess, [])
+              else ({| sv := sv s; sjobs := sjobs s; snjob := snjob s; supl := Some (j, b);
+                       swait := swait s; sdirs := sdirs s |}, SStalled, [])
+          end
+      end
+  | SRelease =>
+      match supl s with
+      | None => (s, SIdle, [])
+      | Some (j, b) =>
+          let '(v', r) := submit_now (sv s) (sjobs s) j b in
+          ({| sv := v'; sjobs := sjobs s ++ swait s; snjob := snjob s; supl := None; swait := [];
+              sdirs := sdirs s |}, r, map (fun w => answer v' (snd w)) (swait s))
+      end
+  | SRun j =>
+      match supl s with
+      | Some _ => (s, SBusy, [])
+      | None =>
+          match hlookup j (sjobs s) with
+          | None => (s, SJobNotFound, [])
+          | Some i =>
+              let jobs' := hremove j (sjobs s) in
+              if mem_id i (sdirs s) then
+                ({| sv := sv s; sjobs := jobs'; snjob := snjob s; supl := None; swait := swait s; sdirs := sdirs s |},
+                 SFailed, [])
+              else
+                let '(v1, r, _, _) := tc_get (sv s) i in
+                match r with
+                | TOk => ({| sv := fst (tc_remove v1 i); sjobs := jobs'; snjob := snjob s; supl := None;
+                             swait := swait s; sdirs := sdirs s |}, SFailed, [])
+                | _ => ({| sv := v1; sjobs := jobs'; snjob := snjob s; supl := None; swait := swait s;
+                           sdirs := i :: sdirs s |}, SFailed, [])
+                end
+          end
+      end
+  end.
+
+Definition srun (s : sst) (ops : list sop) : sst := fold_left (fun s o => fst (fst (sstep s o))) ops s.
+
+Fixpoint strace (s : sst) (ops : list sop) : list (sres * list sres * sst) :=
+  match ops with
+  | [] => []
+  | o :: r => let '(s', x, a) := sstep s o in (x, a, s') :: strace s' r
+  end.
+
 End WithDigest.
 
 (* TcCache::new on an empty directory *)
 Definition tc_empty (c : N) : tst := {| lru := empty c; cont := [] |}.
+
+Definition s_empty (c : N) : sst :=
+  {| sv := tc_empty c; sjobs := []; snjob := 0; supl := None; swait := []; sdirs := [] |}.
